@@ -3447,6 +3447,23 @@ def run(ctx) -> Result:
             xlin_cases += [gen_xlin_case(rng, mode, api, bias="E-first", all_workers=True) for _ in range(k)]
     xlin_cases += [gen_xlin_case(rng, "thread") for _ in range(30 * k)] + [gen_xlin_case(rng, "process") for _ in range(3 * k)]
     timed("xlin", check_xlin_cases, res, xlin_cases, ctx.t0 + span * 0.995)
+    # round 3: histories on ONE parallel gradient approximator whose function takes keyword arguments that change between
+    # the calls (f_gradient / compute_optimal_step), and on ONE parallel chain with outputs computed by several disciplines
+    # and requested input/output subsets; closed-form oracles, sequential counterparts run beside (harness/c13_seq.py)
+    from harness import c13_seq
+
+    fdh = [c["case"] for c in corpus if c.get("kind") == "fdhist"]
+    for method in ("fd", "centered"):
+        fdh += [c13_seq.gen_fdhist_case(rng, method, first="optstep") for _ in range(2 * k)]
+        fdh += [c13_seq.gen_fdhist_case(rng, method, first="grad") for _ in range(k)]
+    fdh += [c13_seq.gen_fdhist_case(rng, "complex") for _ in range(k)]
+    fdh += [c13_seq.gen_fdhist_case(rng) for _ in range(300 if ctx.thorough else 12)]
+    timed("fdhist", c13_seq.check_fdhist_cases, res, fdh, ctx.t0 + span * 0.998)
+    mix = [c["case"] for c in corpus if c.get("kind") == "chainmix"]
+    for backend in ("thread", "process"):
+        mix += [c13_seq.gen_chainmix_case(rng, backend, shape="override") for _ in range(2 * k)]
+    mix += [c13_seq.gen_chainmix_case(rng) for _ in range(600 if ctx.thorough else 40)]
+    timed("chainmix", c13_seq.check_chainmix_cases, res, mix, ctx.t0 + span * 1.0)
     res.extra["stream_wall_s"] = walls
     lost = res.extra.get("unresolved_timeouts")
     if lost and not res.violations:
@@ -3565,5 +3582,13 @@ def replay(path: str) -> int:
         for k, m in bad:
             print("ORACLE FAILS:", k, m[:700])
         return 1 if bad else 0
+    if rp.get("kind") == "fdhist":
+        from harness import c13_seq
+
+        return c13_seq.replay_fdhist(rp["case"])
+    if rp.get("kind") == "chainmix":
+        from harness import c13_seq
+
+        return c13_seq.replay_chainmix(rp["case"])
     print(json.dumps(rp, indent=1)[:3000])
     return 1
